@@ -1328,6 +1328,10 @@ func c18BinaryInner(t *testing.T) {
 				"single-quotes":    "client { key: '02:ee:00:00:00:77' value { dns: \"9.9.9.9\" } }\n",
 				"adjacent-strings": "client: { key: \"02:ee:00:\" \"00:00:77\" value: { dns: \"9.9.9.9\" } }\n",
 				"angle-brackets":   "client < value < dns: \"9.9.9.9\" > key: \"02:ee:00:00:00:77\" >\n",
+				"squote-octal":     "client { key: '02:ee:00:00:00:7\\067' value { dns: \"9.9.9.9\" } }\n",
+				"squote-hex":       "client { key: '02:ee:00:00:00:\\x377' value { dns: \"9.9.9.9\" } }\n",
+				"upper-x-escape":   "client { key: \"02:ee:00:00:00:7\\X37\" value { dns: \"9.9.9.9\" } }\n",
+				"short-octal":      "client { key: \"02:ee:00:00:00:7\\67\" value { dns: \"9.9.9.9\" } }\n",
 			} {
 				atomic.AddInt64(&vl.n, 1)
 				if ok, _ := startOn(good + first + "# in between\n" + second); ok {
